@@ -201,9 +201,17 @@ def check(mon, ev):
                 mon.violation(f"Piecewise::{name}: a piece is not an antiderivative of the corresponding piece (coefficients)",
                               lambda: wit({"piece": i, "coefficient": bad[0], "observed": bad[1], "expected": bad[2]}))
                 return
-            lo = ends[i - 1] if i > 0 else ends[0] - (1.0 if kind == "poly" else 0.5 * ends[0])
+            big = lambda e: not (abs(e) < 1e6)
             hi = ends[i]
-            if hi == lo:
+            if i > 0:
+                lo = ends[i - 1]
+            elif big(hi):
+                lo = 1.0 if kind == "log" else -1.0
+            else:
+                lo = hi - (1.0 if kind == "poly" else 0.5 * hi)
+            if big(lo):
+                continue                      # a piece that starts beyond 1e6: nothing is evaluated there
+            if hi == lo or big(hi):
                 hi = lo + (1.0 if kind == "poly" else 0.5 * lo)
             a, b = lo + 0.25 * (hi - lo), lo + 0.75 * (hi - lo)
             if tiny(a) or tiny(b):
@@ -254,8 +262,9 @@ def check(mon, ev):
         else:
             # indefinite(): the normalisation of the first piece is the representation's own (additive constant
             # field zero); anchor the comparison at the returned first piece's exact value at its right end
-            bx, by = mpf(ends[0]), pcs[0].Fval(ends[0])
-            acc0 = pcs[0].tol(ends[0], K)
+            e0 = ends[0] if abs(ends[0]) < 1e6 else (1.0 if kind == "log" else 0.0)   # open-ended single piece
+            bx, by = mpf(e0), pcs[0].Fval(e0)
+            acc0 = pcs[0].tol(e0, K)
         # prefix sums over whole pieces
         pre = [mpf(0)] * n          # pre[j] = integral of f from bx to e_{j-1}  (start of piece j), j >= 1
         acc = [acc0] * n
